@@ -12,5 +12,6 @@ func checkC18(c *Ctx) {
 	rangeRule(c, "C18.R1", pkgFuncs(P, true, "certs", "common", "userauth", "codex", "portforwarding", "tubes", "authgrants", "transport", "keys"), narrowingObs,
 		"a length is narrowed to its wire width without a bound that holds at the conversion: an over-long value is truncated / mis-framed instead of rejected", "length-prefix narrowing conversions", 10)
 	c18Layout(c)
+	c18FullReads(c)
 	c18Consume(c)
 }
